@@ -15,6 +15,8 @@ def run(ctx):
     ]
     plan.append({"scens": wcat.special_dep_scenarios(failing=True), "policies": ("FIFO", "LIFO"), "bound": 1})
     plan.append({"scens": wcat.carry_scenarios(), "policies": ("FIFO", "LIFO", "JOBS"), "bound": 1})
+    plan.append({"scens": wcat.rerun_scenarios(), "policies": ("FIFO", "LIFO", "JOBS"), "bound": 1})
+    plan.append({"scens": wcat.first_handle_scenarios(), "policies": ("FIFO", "JOBS"), "bound": 1})
     plan.append({"scens": wcat.wait_scenarios(), "policies": ("FIFO", "LIFO", "JOBS"), "bound": 1})
     for pol in ("FIFO", "LIFO", "Q:1,2,job"):
         plan.append({"scens": wcat.jobkill_scenarios(), "policies": (pol,), "kills": {"restart_bound": 0}})
